@@ -578,6 +578,7 @@ pub struct DurField {
     pub res_ms: u64,
     pub bits: u32,
     pub set: fn(&mut Packet, Duration) -> bool,
+    pub get: fn(&Packet) -> Option<Duration>,
 }
 
 macro_rules! df {
@@ -593,6 +594,10 @@ macro_rules! df {
                     true
                 },
                 _ => false,
+            },
+            get: |p| match p {
+                Packet::$variant(x) => Some(x.$f),
+                _ => None,
             },
         }
     };
@@ -611,6 +616,13 @@ macro_rules! dsmall {
                     true
                 },
                 _ => false,
+            },
+            get: |p| match p {
+                Packet::Small(x) => match &x.subt {
+                    SmallType::$variant(d) => Some(*d),
+                    _ => None,
+                },
+                _ => None,
             },
         }
     };
